@@ -508,7 +508,10 @@ pub fn gen_hist<W: Write>(prop: &str, r: &mut Rng, thorough: bool, out: &mut W) 
             (k, w) = pick_k(r);
         }
         let rc = r.below(2) == 1;
+        // and one table per run has more samples than a byte can count
+        let wide = round == 2 && matches!(prop, "C06" | "C07" | "C08" | "C10" | "C13" | "C14");
         let nsamp = match prop {
+            _ if wide => 257 + r.below(60),
             _ if big => 3 + r.below(2),
             "C14" => 2 + r.below(11),
             "C06" => 1 + r.below(12),
